@@ -300,7 +300,8 @@ def discharge_row(ses, cm, vs, P, blocks, row, label, kind, eps=0, extra=(), sam
         env = cm.env(vs)
         vt = viol_terms(row, env, z3, eps)
         cons = cm.cp.block_cons(blk, vs) + list(extra) + env.defs
-        res, _ = ses.solve(cons + [z3.Or(vt)], timeout_ms=block_timeout_ms, label=label + '/blk')
+        res, _ = ses.solve(cons + [z3.Or(vt)], timeout_ms=block_timeout_ms, label=label + '/blk',
+                           fallback_ms=(10000 if core and (eps or blk['cones']) else 0))
         if res == 'unsat':
             st.obligations += 1
             st.kinds[kind] = st.kinds.get(kind, 0) + 1
